@@ -710,11 +710,13 @@ def run_replica(sdir, reps, stage, e, infile, opts, src, wdir, stats, timeout=No
                 f.write(b"@" * off + data)
             stdin_arg = os.open(sf, os.O_RDONLY)
             os.lseek(stdin_arg, off, os.SEEK_SET)
+    run_dir = wdir
+
     def listing():
         s = set()
-        for d in (wdir, os.path.dirname(infile)):
+        for d in (run_dir, os.path.dirname(infile)):
             for root, dirs, fs in os.walk(d):
-                if root == wdir:
+                if root == run_dir:
                     dirs[:] = [x for x in dirs if x not in ("in", "include") and not x.startswith("cw")]
                 for x in fs + dirs:
                     s.add(os.path.relpath(os.path.join(root, x), d))
@@ -745,6 +747,14 @@ def run_replica(sdir, reps, stage, e, infile, opts, src, wdir, stats, timeout=No
     err = re.sub(rb"/tmp/chibicc-[A-Za-z0-9]{6}", b"/tmp/chibicc-TEMP", p.stderr)
     # files that came into being next to the input or in the working directory, other than the requested ones
     newf = sorted(x for x in listing() - files_before if os.path.basename(x) not in ("out.bin", "out.d", "stats", "stdin.bin") and not x.endswith(".hardlink"))
+    for x in newf:      # (and they go away again, so that the next run starts from the same directory)
+        for d in (run_dir, os.path.dirname(infile)):
+            q = os.path.join(d, x)
+            try:
+                if os.path.isfile(q) or os.path.islink(q):
+                    os.unlink(q)
+            except OSError:
+                pass
     newf = [re.sub(r"chibicc-[A-Za-z0-9]{6}", "chibicc-TEMP", x) for x in newf]
     res = {"status": p.returncode, "stdout": p.stdout, "stderr": err, "out": None, "dep": None, "newfiles": "\n".join(newf).encode()}
     old = (b"OLD CONTENT %d\n" % e["preexist"]) * (e["preexist"] // 14 + 1) if e.get("preexist", 0) > 0 else None
